@@ -327,6 +327,67 @@ func notifierRules(c *Ctx) {
 		chosen := resultOf(sel, 0)
 		for _, r := range returnsOf(fn) {
 			if !P.PathExists(fn, sel, an.Is(r), nil, nil) {
+				// an early return, before anything was offered: only because the publish context is already cancelled or
+				// nobody is subscribed under the key
+				why := ""
+				eifs, enegs := P.IfsOn(fn, func(cond ssa.Value) bool {
+					b, ok := cond.(*ssa.BinOp)
+					if !ok || (b.Op != token.EQL && b.Op != token.NEQ) {
+						return false
+					}
+					return either(b, func(v ssa.Value) bool {
+						call, isC := v.(*ssa.Call)
+						return isC && call.Call.IsInvoke() && call.Call.Method.Name() == "Err" && srcIs(P, call.Call.Value, fn.Params[1])
+					}, isNilConst)
+				})
+				for i, ifi := range eifs {
+					nn := 0
+					if enegs[i] {
+						nn = 1
+					}
+					if stripNotV(ifi.Cond).(*ssa.BinOp).Op == token.EQL {
+						nn = 1 - nn
+					}
+					if q.onlyViaEdge(r, ifi, nn) {
+						why = "reached only through ctx.Err() != nil"
+					}
+				}
+				zifs, znegs := P.IfsOn(fn, func(cond ssa.Value) bool {
+					b, ok := cond.(*ssa.BinOp)
+					if !ok || (b.Op != token.EQL && b.Op != token.NEQ) {
+						return false
+					}
+					return either(b, func(v ssa.Value) bool {
+						call, isC := v.(*ssa.Call)
+						if !isC {
+							return false
+						}
+						bi, isB := call.Call.Value.(*ssa.Builtin)
+						if !isB || bi.Name() != "len" {
+							return false
+						}
+						for _, src := range P.Sources(call.Call.Args[0]) {
+							if lk, isLk := src.(*ssa.Lookup); isLk && an.IsLoadOfField(lk.X, "Notifier.subscribers") {
+								return true
+							}
+						}
+						return false
+					}, isZero)
+				})
+				for i, ifi := range zifs {
+					zs := 0
+					if znegs[i] {
+						zs = 1
+					}
+					if stripNotV(ifi.Cond).(*ssa.BinOp).Op == token.NEQ {
+						zs = 1 - zs
+					}
+					if q.onlyViaEdge(r, ifi, zs) {
+						why = "reached only through len(subscribers[key]) == 0"
+					}
+				}
+				q.add("PATH", "Publish gives up before offering the value only if its context is cancelled or nobody is subscribed", why != "",
+					pickS(why != "", why, "PublishContext can return without offering the value to anybody although its context is live and the key has subscribers (a guard is inverted)"), r)
 				continue
 			}
 			// either through the loop guard (len == 0) or through chosen < len(exitCases)
